@@ -114,8 +114,8 @@ CHECKS.update({
                  "reserved bits 0 (R-BITPROV); edgeLengthRads adds one great-circle distance per consecutive pair of the boundary stretch (R-FOLD).",
                  "boundary stretch geometry, destination round trip.", "R-CONJ/R-GUARD " + G + "; " + BP + "; R-FOLD accumulation-shape rule; R-TAB T8,T12 " + TAB + "; R-CFORM " + CF + "; R-ERRFLOW"),
  "C11": _partial("C11", "isValidVertex conjuncts (mode 4, valid owner, re-derivation succeeds, index equals the canonical one); vertex numbers outside the cell's range => E_DOMAIN; "
-                 "T8, T12, pentagon set of pentagonDirectionFaces (T7).",
-                 "agreement of the three incident cells, 2N-4 count, coordinates.", "R-CONJ/R-GUARD " + G + "; R-TAB T7,T8,T12 " + TAB),
+                 "T8, T12, pentagon set of pentagonDirectionFaces (T7); vertexToLatLng asks the hexagon and the pentagon boundary builder for the same one-vertex slice (R-SIB).",
+                 "agreement of the three incident cells, 2N-4 count, coordinates.", "R-CONJ/R-GUARD " + G + "; R-TAB T7,T8,T12 " + TAB + "; R-SIB sibling-call agreement"),
  "C12": _partial("C12", "every row of the guard table (each documented rejection of an out-of-domain scalar: never success, documented code reachable, no write where stated); "
                  "every function can only return codes 0..15 (value-set fixpoint over returns, parameters, error fields); no H3Error is dropped (R-ERRDISC) and for every used call site and "
                  "every non-zero code of the callee the caller cannot reach `return E_SUCCESS` (R-ERRFLOW, one justified exception); overflow-checked helpers cannot wrap (R-OVF); no "
